@@ -85,7 +85,9 @@ def drive(sc):
     # the same with a variable transform (dyadic scales, offsets in units of 1/4): what the evaluator receives and what is
     # reported in the user domain must still be x + magnitude x sample, post-processed at the USER's bounds
     transforms = make_transforms(var_scales=[2.0, 0.5, 4.0], var_offsets=[0.25, -0.5, 1.0])
-    config2 = EnOptConfig.model_validate(dict(cfg, gradient=gradient_section()), context=transforms)
+    # (this second configuration also carries an explicit variable mask that frees every variable)
+    config2 = EnOptConfig.model_validate(dict(cfg, gradient=gradient_section(), variables=dict(cfg["variables"], mask=[True, True, True])),
+                                         context=transforms)
     rows.clear()
     ee2 = EnsembleEvaluator(config2, transforms, evaluator, manager())
     res2 = ee2.calculate(transforms.variables.to_optimizer(x_user), compute_functions=True, compute_gradients=True)
